@@ -241,7 +241,7 @@ def confirm(runner, q, rec, outdir):
         # GF(p) models have no floating-point reading, and Real models may be irrational:
         # a broken polynomial identity fails for generic values, so also try seeded generic inputs
         ints = [l for l in (lines or []) if l.startswith('i ')]
-        for s in range(1, 41):
+        for s in range(1, 17):
             trials.append((ints, runner.seed * 1000 + s))
     verdict = (False, 'counterexample did not reproduce natively', rp)
     for ls, rs in trials:
@@ -322,6 +322,7 @@ def main():
     violations, inconclusive, known_hits, unconfirmed = [], [], [], []
     passed = 0
     reached = 0
+    failed = []
     for r in results:
         q = r['_q']
         if r['status'] == 'pass':
@@ -333,25 +334,43 @@ def main():
         elif r['status'] == 'inconclusive':
             inconclusive.append((q.name, r.get('why', '')))
         else:
-            desc = '; '.join('%s %s' % (v[1], v[2]) for v in (r.get('fails') or {}).values())
-            ok, msg, rp = confirm(runner, q, r, replay_dir)
-            kf = match_known(known, q, desc + ' ' + msg)
-            if kf:
-                known_hits.append((kf, q.name, desc or msg))
-                continue
-            only_unwind = r.get('fails') and all('unwind' in k for k in r['fails'])
-            if ok:
-                path = os.path.join(replay_dir, '%s-%s.json' % (pid, re.sub(r'[^A-Za-z0-9_.-]', '_', q.name)))
-                json.dump(rp, open(path, 'w'), indent=1)
-                path = os.path.relpath(path, VERIF)
-                violations.append((q.name, desc or msg, msg, path))
-            elif only_unwind:
-                inconclusive.append((q.name, 'unwinding bound exceeded: ' + desc[:200]))
-            else:
-                path = os.path.join(replay_dir, '%s-%s.unconfirmed.json' % (pid, re.sub(r'[^A-Za-z0-9_.-]', '_', q.name)))
-                json.dump(rp, open(path, 'w'), indent=1)
-                path = os.path.relpath(path, VERIF)
-                unconfirmed.append((q.name, desc or 'solver counterexample', msg, path))
+            failed.append(r)
+    # native confirmation of counterexamples: at most MAXC per run (in parallel); the rest are listed unreplayed
+    MAXC = int(os.environ.get('VERIF_MAX_CONFIRM', '12'))
+    from concurrent.futures import ThreadPoolExecutor
+    todo = failed[:MAXC]
+    with ThreadPoolExecutor(max(1, min(len(todo), vcore.NCPU // 2))) as ex:
+        confs = list(ex.map(lambda r: confirm(runner, r['_q'], r, replay_dir), todo))
+    for r, (ok, msg, rp) in zip(todo, confs):
+        q = r['_q']
+        desc = '; '.join('%s %s' % (v[1], v[2]) for v in (r.get('fails') or {}).values())
+        kf = match_known(known, q, desc + ' ' + msg)
+        if kf:
+            known_hits.append((kf, q.name, desc or msg))
+            continue
+        only_unwind = r.get('fails') and all('unwind' in k for k in r['fails'])
+        tagn = re.sub(r'[^A-Za-z0-9_.-]', '_', q.name)
+        if ok:
+            path = os.path.join(replay_dir, '%s-%s.json' % (pid, tagn))
+            json.dump(rp, open(path, 'w'), indent=1)
+            violations.append((q.name, desc or msg, msg, os.path.relpath(path, VERIF)))
+        elif only_unwind:
+            inconclusive.append((q.name, 'unwinding bound exceeded: ' + desc[:200]))
+        else:
+            path = os.path.join(replay_dir, '%s-%s.unconfirmed.json' % (pid, tagn))
+            json.dump(rp, open(path, 'w'), indent=1)
+            unconfirmed.append((q.name, desc or 'solver counterexample', msg, os.path.relpath(path, VERIF)))
+    for r in failed[MAXC:]:
+        q = r['_q']
+        desc = '; '.join('%s %s' % (v[1], v[2]) for v in (r.get('fails') or {}).values())
+        kf = match_known(known, q, desc)
+        if kf:
+            known_hits.append((kf, q.name, desc))
+        elif violations:
+            violations.append((q.name, desc or 'solver counterexample', 'not replayed (cap of %d native confirmations per run reached)' % MAXC, violations[0][3]))
+        else:
+            unconfirmed.append((q.name, desc or 'solver counterexample', 'not replayed (cap reached)', ''))
+    for r in results:
         for f in (r.get('_gb'), r.get('vc')):
             if f and os.path.exists(f):
                 os.unlink(f)
